@@ -679,3 +679,142 @@ def reuse(chk, rule_fn, src_rules, new_rule, doc, keep=None, floor=1):
     chk.units.update(tmp.units)
     chk.floor(new_rule, floor, 'instances of %s' % '/'.join(src_rules))
     return n
+
+
+SHARED_MUTATORS = ('append', 'extend', 'insert', 'remove', 'pop', 'clear', 'update', 'setdefault', 'add', 'discard',
+                   'popitem', 'sort', 'reverse')
+
+
+def no_mutation_of_class_tables_through_aliases(chk, rule, rels, floor=1):
+    """A local bound directly to `<Class>.<attr>` (or `cls.<attr>` / `self.__class__.<attr>`) - no copy, no
+    constructor around it - is the class-level object itself.  Storing into it, deleting from it, calling a mutating
+    method on it or augmenting it changes the table for every other user of that class (all dialects, all instances,
+    for the rest of the process).  Same for such an expression mutated directly."""
+    import ast as _ast
+    from vt.model import walk_no_nested, norm
+    from vt.runner import where
+    chk.doc(rule, 'no function binds a local directly to a class-level attribute of a class of the package '
+                  '(`x = SomeClass.table`) and then modifies it in place (item store / del, mutating method, augmented '
+                  'assignment): tables derived from another class are copied first (dict(..), list(..), [:], .copy())')
+    n = 0
+    for rel in rels:
+        mod = chk.model.mod(rel, required=False)
+        if mod is None:
+            continue
+        funcs = [f for f in _ast.walk(mod.tree) if isinstance(f, (_ast.FunctionDef, _ast.Lambda))]
+        for fn in funcs:
+            if isinstance(fn, _ast.Lambda):
+                continue
+            aliases = {}
+
+            def is_class_attr(e):
+                if not isinstance(e, _ast.Attribute):
+                    return False
+                b = e.value
+                if isinstance(b, _ast.Name) and b.id == 'cls':
+                    return True
+                if norm(b) in ('self.__class__', 'type(self)'):
+                    return True
+                return isinstance(b, (_ast.Name, _ast.Attribute)) and chk.model.resolve_class(mod, b) is not None
+            for st in walk_no_nested(fn):
+                if isinstance(st, _ast.Assign) and len(st.targets) == 1 and isinstance(st.targets[0], _ast.Name) and \
+                        is_class_attr(st.value):
+                    aliases[st.targets[0].id] = st
+            rebinds = {}
+            for st in walk_no_nested(fn):
+                if isinstance(st, _ast.Assign):
+                    for t in st.targets:
+                        if isinstance(t, _ast.Name) and t.id in aliases and aliases[t.id] is not st:
+                            rebinds[t.id] = st
+            for name in rebinds:
+                aliases.pop(name, None)     # rebound later: not tracked (flow-insensitive, so stay silent)
+
+            def shared(e):
+                return (isinstance(e, _ast.Name) and e.id in aliases) or is_class_attr(e)
+            for x in walk_no_nested(fn):
+                hit = None
+                if isinstance(x, _ast.Assign):
+                    for t in x.targets:
+                        if isinstance(t, _ast.Subscript) and shared(t.value):
+                            hit = t.value
+                elif isinstance(x, _ast.AugAssign):
+                    if shared(x.target) or (isinstance(x.target, _ast.Subscript) and shared(x.target.value)):
+                        hit = x.target if not isinstance(x.target, _ast.Subscript) else x.target.value
+                elif isinstance(x, _ast.Delete):
+                    for t in x.targets:
+                        if isinstance(t, _ast.Subscript) and shared(t.value):
+                            hit = t.value
+                elif isinstance(x, _ast.Call) and isinstance(x.func, _ast.Attribute) and \
+                        x.func.attr in SHARED_MUTATORS and shared(x.func.value):
+                    hit = x.func.value
+                if hit is not None:
+                    n += 1
+                    src = norm(aliases[hit.id].value) if isinstance(hit, _ast.Name) and hit.id in aliases else norm(hit)
+                    chk.ob(rule, '%s:%s/in-place change of %s' % (rel.split('/')[-1], getattr(fn, 'name', '?'), src),
+                           False, where(mod, x),
+                           '`%s` modifies the class-level object %s itself (no copy was taken): every other user of that '
+                           'class sees the change' % (norm(x)[:70], src))
+        n += 1
+        chk.ob(rule, '%s/scanned' % rel, True, rel, '')
+    chk.floor(rule, floor, 'modules scanned')
+
+
+def format_arity(chk, rule, rels, floor=20):
+    """`'..%s..%s' % x`: the number of conversion specifiers equals the number of values supplied.  A mismatch raises
+    TypeError where the message was to be built - in an error path that means a foreign exception instead of the
+    package error the message was meant for."""
+    import ast as _ast
+    import re as _re
+    from vt.model import norm
+    from vt.runner import where
+    chk.doc(rule, 'every `<string constant> % <values>`: a tuple display on the right has as many items as the string '
+                  'has conversion specifiers; a single non-tuple value stands for exactly one specifier (a name bound to '
+                  'a tuple display in the same function counts with its length)')
+    spec = _re.compile(r'%(?:\((\w+)\))?[#0\- +]*(\*|\d+)?(?:\.(\*|\d+))?[hlL]?([diouxXeEfFgGcrsa%])')
+    n = 0
+    for rel in rels:
+        mod = chk.model.mod(rel, required=False)
+        if mod is None:
+            continue
+        for fn in [f for f in _ast.walk(mod.tree) if isinstance(f, (_ast.FunctionDef, _ast.Module))]:
+            tuples = {}
+            for st in _ast.walk(fn):
+                if isinstance(st, _ast.Assign) and len(st.targets) == 1 and isinstance(st.targets[0], _ast.Name) and \
+                        isinstance(st.value, _ast.Tuple):
+                    tuples.setdefault(st.targets[0].id, set()).add(len(st.value.elts))
+            if isinstance(fn, _ast.Module):
+                continue
+            for x in _ast.walk(fn):
+                if not (isinstance(x, _ast.BinOp) and isinstance(x.op, _ast.Mod) and isinstance(x.left, _ast.Constant) and
+                        isinstance(x.left.value, str)):
+                    continue
+                want, named = 0, False
+                for m in spec.finditer(x.left.value):
+                    if m.group(4) == '%':
+                        continue
+                    if m.group(1):
+                        named = True
+                    want += 1 + (m.group(2) == '*') + (m.group(3) == '*')
+                if named:
+                    continue
+                r = x.right
+                if isinstance(r, _ast.Tuple):
+                    if any(isinstance(e, _ast.Starred) for e in r.elts):
+                        continue
+                    got = len(r.elts)
+                elif isinstance(r, _ast.Name) and r.id in tuples and len(tuples[r.id]) == 1:
+                    got = list(tuples[r.id])[0]
+                elif isinstance(r, (_ast.Dict,)):
+                    continue
+                else:
+                    got = 1
+                    if want != 1 and isinstance(r, (_ast.Call, _ast.Subscript, _ast.Attribute)) and \
+                            not isinstance(r, _ast.Constant):
+                        # a call / subscript / attribute may well be a tuple: only a bare name or literal is certain
+                        if not isinstance(r, _ast.Attribute):
+                            continue
+                n += 1
+                chk.ob(rule, '%s:%s/%s' % (rel.split('/')[-1], getattr(fn, 'name', '?'), norm(x.left)[:40]), want == got,
+                       where(mod, x), 'the format string has %d conversion specifier(s), %d value(s) are supplied '
+                                      '(`%s`): TypeError when this line runs' % (want, got, norm(x)[:90]))
+    chk.floor(rule, floor, 'format operations')
